@@ -103,8 +103,8 @@ type RWMutex struct {
 	wait    chan struct{}
 }
 
-func (m *RWMutex) Lock()   { m.lock(true) }
-func (m *RWMutex) RLock()  { m.lock(false) }
+func (m *RWMutex) Lock()  { m.lock(true) }
+func (m *RWMutex) RLock() { m.lock(false) }
 func (m *RWMutex) lock(write bool) {
 	s := verifrt.Active()
 	t := task(s)
